@@ -271,7 +271,8 @@ class CSBK(BitsInterface, BytesInterface):
                 + bitarray([cto[1]])
             )
         elif self.csbko == CsbkOpcodes.HyteraIPSCSync:
-            pdu += bytes_to_bits(self.raw_data)
+            # 64 bits of manufacturer data, shorter (or no) data is padded with zeros
+            pdu += bytes_to_bits(bytes(self.raw_data).ljust(8, b"\x00"))
         elif self.csbko == CsbkOpcodes.AlohaPDUsForRandomAccessProtocol:
             pdu += (
                 bitarray(
@@ -292,13 +293,15 @@ class CSBK(BitsInterface, BytesInterface):
                 + int2ba(self.target_address, length=24)
             )
         elif self.csbko == CsbkOpcodes.AnnouncementPDUsWithoutResponse:
+            # 14 + 24 bits of broadcast parameters, shorter (or no) parameters are padded with zeros
+            params: bitarray = (bitarray(self.broadcast_params) + bitarray([0] * 38))[:38]
             pdu += (
                 int2ba(self.announcement_type.value, length=5)
-                + self.broadcast_params[:14]
+                + params[:14]
                 + bitarray([self.tscc_reg_required])
                 + int2ba(self.tscc_backoff, length=4)
                 + int2ba(self.system_identity_code, length=16)
-                + self.broadcast_params[14:38]
+                + params[14:38]
             )
 
         return pdu + int2ba(self.crc, length=16)
